@@ -228,3 +228,160 @@ Proof.
   unfold md_layout, with_crc, CRC_WITH_CRC. destruct (cf_crc c =? 1); [|reflexivity].
   rewrite struct_pack_crc by exact Wpre. reflexivity.
 Qed.
+
+(* ================= unpack: the option loop ================= *)
+
+(* generalised "decode the rest": started behind any prefix, with any accumulator, the loop
+   decodes the remaining options in order and stops exactly at the end *)
+Lemma md_opt_loop_spec ts : forall fuel pre acc raw,
+  Forall opt_valid ts -> ts <> [] -> (length ts <= fuel)%nat ->
+  raw = pre ++ cat opt_layout ts ->
+  md_opt_loop fuel raw (len pre) acc = Ok (acc ++ ts).
+Proof.
+  induction ts as [|t ts IH]; intros fuel pre acc raw F Hne Hf ->; [congruence|].
+  inversion F as [|? ? Ht Fts]; subst.
+  destruct fuel as [|fuel]; [cbn in Hf; lia|]. cbn [md_opt_loop cat].
+  rewrite slice_from_at by reflexivity. rewrite opt_valid_unpack by exact Ht. cbn [bind].
+  rewrite <- opt_layout_len, !len_app.
+  pose proof (len_nonneg (cat opt_layout ts)) as N.
+  destruct (len pre + len (opt_layout t) >? len pre + (len (opt_layout t) + len (cat opt_layout ts))) eqn:G; [lia|].
+  destruct ts as [|t2 ts].
+  - cbn [cat]. rewrite len_nil. destruct (_ =? _) eqn:G2; [reflexivity|lia].
+  - destruct (_ =? _) eqn:G2.
+    { cbn [cat] in G2. rewrite len_app in G2. pose proof (opt_layout_pos t2). unfold len in G2. lia. }
+    replace (len pre + len (opt_layout t)) with (len (pre ++ opt_layout t)) by (rewrite len_app; reflexivity).
+    rewrite (IH fuel (pre ++ opt_layout t) (acc ++ [t])).
+    + rewrite <- app_assoc. reflexivity.
+    + exact Fts.
+    + discriminate.
+    + cbn [length] in *. lia.
+    + rewrite <- app_assoc. reflexivity.
+Qed.
+
+Lemma md_empty_ok : exists e0, md_empty = Ok e0 /\ md_options e0 = None.
+Proof. eexists. split; [vm_compute; reflexivity|reflexivity]. Qed.
+
+(* what the decoder returns: the parameter object carries the three decoded values (its name
+   fields stay empty strings, the names live in the two LVs); no options -> None *)
+Definition mp_decoded (q : MdParams) : MdParams :=
+  {| mp_closure := mp_closure q; mp_cstype := mp_cstype q; mp_fsize := mp_fsize q;
+     mp_src := Some []; mp_dst := Some [] |}.
+Definition opts_decoded (o : option (list tlv)) : option (list tlv) :=
+  match opts_of o with [] => None | l => Some l end.
+Definition md_decoded (c : PduConfig) (q : MdParams) (o : option (list tlv)) : MetadataPdu :=
+  {| md_fdir := fdir_of (conf_set_dir c 0) DT_METADATA (md_dlen c q o - 1);
+     md_params := mp_decoded q; md_src_lv := name_octets (mp_src q); md_dst_lv := name_octets (mp_dst q);
+     md_options := opts_decoded o |}.
+
+Lemma slice_to_at (A B : bytes) n : n = len A -> slice_to (A ++ B) n = A.
+Proof. intros ->. unfold slice_to, len. rewrite Nat2Z.id. apply firstn_app_exact. reflexivity. Qed.
+
+(* K_unpack_pack, for option lists of any length *)
+Theorem md_unpack_pack c q o rest : md_valid c q o -> wf_bytes rest ->
+  md_unpack (md_layout c q o ++ rest) = Ok (md_decoded c q o).
+Proof.
+  intros V Wr. pose proof V as (C & Vcl & Vcs & Vf & Vs & Vd & Vo & D).
+  assert (Fc : flag (cf_crc c)) by apply C. assert (Fl : flag (cf_large c)) by apply C.
+  pose proof (md_fdir_valid c q o V) as FV. pose proof (md_pre_wf c q o V) as Wpre.
+  pose proof (md_dlen_nonneg c q o) as Dn.
+  set (f := fdir_of (conf_set_dir c 0) DT_METADATA (md_dlen c q o - 1)) in *.
+  set (b0 := mp_closure q * 64 + mp_cstype q).
+  set (FSS := be_encode (fss_width c) (mp_fsize q)).
+  set (S := name_octets (mp_src q)). set (Dd := name_octets (mp_dst q)).
+  set (O := cat opt_layout (opts_of o)).
+  assert (PRE : hdr_layout (md_header c q o) ++ [D_METADATA] ++ md_body c q o
+                = fdir_layout f ++ [b0] ++ FSS ++ lv_layout S ++ lv_layout Dd ++ O).
+  { rewrite md_pre_eq. reflexivity. }
+  set (pre := hdr_layout (md_header c q o) ++ [D_METADATA] ++ md_body c q o) in *.
+  assert (HL : len (fdir_layout f) = fdir_header_len f) by (apply fdir_layout_len; exact FV).
+  assert (LF : len FSS = Z.of_nat (fss_width c)) by apply len_be_encode.
+  assert (PL : hdr_packet_len (fd_hdr f) = len pre + crc_octets c).
+  { rewrite PRE, !len_app, HL, LF, !lv_layout_len. unfold hdr_packet_len, f, fdir_of, fdir_header_len. cbn [fd_hdr h_dlen].
+    rewrite md_dlen_eq, opts_len_cat. fold S Dd O. change (len [b0]) with 1. lia. }
+  pose proof (len_nonneg S) as LS. pose proof (len_nonneg Dd) as LDd. pose proof (len_nonneg O) as LO.
+  pose proof (len_nonneg rest) as Lr.
+  unfold md_unpack. destruct md_empty_ok as (e0 & -> & Oe0). cbn [bind].
+  unfold md_layout. fold pre.
+  assert (DATA : with_crc c pre ++ rest =
+                 fdir_layout f ++ b0 :: FSS ++ lv_layout S ++ lv_layout Dd ++ O ++ crc_tail c pre ++ rest).
+  { rewrite with_crc_split, PRE, <- !app_assoc. reflexivity. }
+  assert (U : fdir_unpack (with_crc c pre ++ rest) = Ok f).
+  { rewrite DATA. apply fdir_unpack_layout; [exact FV|].
+    clear - Wpre Wr PRE. rewrite PRE in Wpre. rewrite !wf_bytes_app in Wpre.
+    destruct Wpre as (_ & W0 & W1 & W2 & W3 & W4).
+    change (b0 :: FSS ++ lv_layout S ++ lv_layout Dd ++ O ++ crc_tail c pre ++ rest)
+      with ([b0] ++ FSS ++ lv_layout S ++ lv_layout Dd ++ O ++ crc_tail c pre ++ rest).
+    rewrite !wf_bytes_app. repeat split; try assumption. apply crc_tail_wf. }
+  rewrite U. cbn [bind]. unfold md_with_fdir. cbn [md_fdir md_params md_src_lv md_dst_lv md_options].
+  rewrite verify_with_crc; [|exact Wpre|exact Fc|reflexivity|destruct (hdr_valid_packet_len _ (proj1 FV)); lia|exact PL].
+  cbn [bind]. unfold md_packet_len, fdir_packet_len. cbn [md_fdir].
+  change (cf_crc (h_conf (fd_hdr f))) with (cf_crc c). change (cf_large (h_conf (fd_hdr f))) with (cf_large c).
+  assert (EP : (if cf_crc c =? CRC_WITH_CRC then hdr_packet_len (fd_hdr f) - 2 else hdr_packet_len (fd_hdr f)) = len pre).
+  { rewrite PL. unfold crc_octets, CRC_WITH_CRC. destruct (cf_crc c =? 1); lia. }
+  rewrite EP.
+  assert (LP : len pre = fdir_header_len f + 1 + Z.of_nat (fss_width c) + (1 + len S) + (1 + len Dd) + len O).
+  { rewrite PRE, !len_app, HL, LF, !lv_layout_len. change (len [b0]) with 1. lia. }
+  assert (MIN : (len pre <? (if cf_large c =? FILE_LARGE then fdir_header_len f + 7 + 4 else fdir_header_len f + 7)) = false).
+  { rewrite LP. unfold fss_width, FILE_LARGE. destruct (cf_large c =? 1); lia. }
+  rewrite MIN.
+  rewrite DATA at 1. rewrite py_get_at by (symmetry; exact HL). cbn [bind].
+  destruct (mdoct_of _ _ Vcl Vcs) as (R & _ & D1 & D2). fold b0 in R, D1, D2. rewrite D1, D2.
+  rewrite cstype_member by exact Vcs. cbn [bind].
+  (* file size *)
+  assert (DATA2 : with_crc c pre ++ rest =
+                  (fdir_layout f ++ [b0]) ++ be_encode (fss_n (h_conf (fd_hdr f))) (mp_fsize q)
+                  ++ lv_layout S ++ lv_layout Dd ++ O ++ crc_tail c pre ++ rest).
+  { rewrite DATA, <- app_assoc. reflexivity. }
+  assert (I1 : fdir_header_len f + 1 = len (fdir_layout f ++ [b0])) by (rewrite len_app, HL; reflexivity).
+  rewrite DATA2 at 1. rewrite I1.
+  rewrite fdir_parse_fss_layout; [|exact Fl|exact Vf]. cbn [bind].
+  change (Z.of_nat (fss_n (h_conf (fd_hdr f)))) with (Z.of_nat (fss_width c)).
+  (* the two LVs *)
+  set (i2 := len (fdir_layout f ++ [b0]) + Z.of_nat (fss_width c)).
+  assert (SL1 : slice (with_crc c pre ++ rest) i2 (len pre) = lv_layout S ++ lv_layout Dd ++ O).
+  { rewrite DATA2. change (be_encode (fss_n (h_conf (fd_hdr f))) (mp_fsize q)) with FSS.
+    replace ((fdir_layout f ++ [b0]) ++ FSS ++ lv_layout S ++ lv_layout Dd ++ O ++ crc_tail c pre ++ rest)
+      with (((fdir_layout f ++ [b0]) ++ FSS) ++ (lv_layout S ++ lv_layout Dd ++ O) ++ crc_tail c pre ++ rest)
+      by (rewrite <- !app_assoc; reflexivity).
+    apply slice_at; unfold i2; rewrite !len_app, ?LF, ?lv_layout_len; [reflexivity|].
+    rewrite LP, ?HL, ?lv_layout_len. change (len [b0]) with 1. lia. }
+  rewrite SL1. rewrite <- (lv_pack_layout S). rewrite lv_unpack_pack_app by apply Vs. cbn [bind].
+  unfold lv_packet_len.
+  assert (SL2 : slice (with_crc c pre ++ rest) (i2 + (len S + 1)) (len pre) = lv_layout Dd ++ O).
+  { rewrite DATA2. change (be_encode (fss_n (h_conf (fd_hdr f))) (mp_fsize q)) with FSS.
+    replace ((fdir_layout f ++ [b0]) ++ FSS ++ lv_layout S ++ lv_layout Dd ++ O ++ crc_tail c pre ++ rest)
+      with ((((fdir_layout f ++ [b0]) ++ FSS) ++ lv_layout S) ++ (lv_layout Dd ++ O) ++ crc_tail c pre ++ rest)
+      by (rewrite <- !app_assoc; reflexivity).
+    apply slice_at; unfold i2; rewrite !len_app, ?LF, ?lv_layout_len; [lia|].
+    rewrite LP, ?HL, ?lv_layout_len. change (len [b0]) with 1. lia. }
+  rewrite SL2. rewrite <- (lv_pack_layout Dd). rewrite lv_unpack_pack_app by apply Vd. cbn [bind].
+  (* options *)
+  assert (I3 : i2 + (len S + 1) + (len Dd + 1) = len pre - len O).
+  { unfold i2. rewrite LP, len_app, HL. change (len [b0]) with 1. lia. }
+  rewrite I3.
+  destruct (len pre - len O <? len pre) eqn:G.
+  - assert (RAW : slice_to (with_crc c pre ++ rest) (len pre) = pre).
+    { rewrite with_crc_split, <- app_assoc. apply slice_to_at. reflexivity. }
+    rewrite RAW.
+    set (A := fdir_layout f ++ [b0] ++ FSS ++ lv_layout S ++ lv_layout Dd).
+    assert (PA : pre = A ++ cat opt_layout (opts_of o)).
+    { rewrite PRE. unfold A, O. rewrite <- !app_assoc. reflexivity. }
+    assert (IA : len pre - len O = len A).
+    { rewrite PA at 1. rewrite len_app. fold O. lia. }
+    rewrite IA.
+    assert (NE : opts_of o <> []).
+    { intros E0. unfold O in G. rewrite E0 in G. cbn [cat] in G. rewrite len_nil in G. lia. }
+    rewrite (md_opt_loop_spec (opts_of o) (Datatypes.S (length pre)) A [] pre Vo NE); [|
+      rewrite PA; rewrite app_length;
+      pose proof (cat_length_ge opt_layout (opts_of o)) as X;
+      assert (Forall (fun x => (1 <= length (opt_layout x))%nat) (opts_of o)) as Y
+        by (apply Forall_forall; intros x _; pose proof (opt_layout_pos x); lia);
+      specialize (X Y); lia | exact PA].
+    cbn [bind app]. unfold md_decoded, mp_decoded, opts_decoded. fold f S Dd.
+    destruct (opts_of o) as [|t l]; [congruence|]. reflexivity.
+  - assert (O0 : opts_of o = []).
+    { destruct (opts_of o) as [|t l] eqn:E0; [reflexivity|]. exfalso.
+      unfold O in G. rewrite ?E0 in G. cbn [cat] in G. rewrite len_app in G.
+      pose proof (opt_layout_pos t). pose proof (len_nonneg (cat opt_layout l)). unfold len in G at 2. lia. }
+    rewrite Oe0. unfold md_decoded, mp_decoded, opts_decoded. rewrite O0. fold f S Dd. reflexivity.
+Qed.
